@@ -10,5 +10,9 @@ MCBatches(minlen) == UNION {[1..k -> RowSet] : k \in minlen..MaxBatch}
 MCGroupVecs(len, cur) == [1..len -> 0..(MaxG - 1)]
 MCFilters(len) == {<<>>} \cup [1..len -> {0, 1, 2}]
 MCPick(T) == T
+\* order-insensitivity of the reference functions, checked over EVERY sequence of up to MaxSeq rows
+CONSTANTS MaxSeq
+AllSeqs == UNION {[1..k -> RowSet] : k \in 0..MaxSeq}
+OrderInsensitivityAll == \A sq \in AllSeqs : BagOnly(sq)
 MCPickK(T) == T
 =============================================================================
